@@ -70,7 +70,9 @@ CLAIM = dict(
          "body close everything. Tie: L-sem model-vs-CPython on random programs x every attack position; L-code every "
          "generated function of generated template sets (for/else/recursive loops with and without filters, blocks, super, "
          "extends, include, import, macros, call blocks, set/filter blocks, nested) classified and decided by the Lean "
-         "driver; L-e2e stop after k chunks and cancel at the k-th await for every k through generate_async and "
+         "driver; loop iterables include lists, ranges, async data generators, synchronous generators returned by callables, "
+         "iter()/dict views and the generators of |batch/|slice, sync generators also feed the async filters; L-e2e stop after k "
+         "chunks, cancel at the k-th await and an exception raised by the data function at the k-th await, for every k through generate_async and "
          "render_async, generators tracked by firstiter and inspected after the task has finished. Every generated function "
          "of every template set must be allBracketed (no exception: the loop-filter generator of `{% for … if … %}`, formerly "
          "iterated bare - finding F14 - is bracketed since /repo 78a2e7a; the witness template stays in the fixed corpus).",
@@ -343,7 +345,7 @@ class TGen:
 
     def item(self, d, cx):
         r = self.rng
-        choices = ["text", "await", "const"]
+        choices = ["text", "await", "const", "genfilter"]
         if d > 0:
             choices += ["for", "for", "forif", "forif", "if", "setblock", "filterblock", "macro", "callblock"]
             if cx.get("includes"):
@@ -366,6 +368,10 @@ class TGen:
             return "{{ aw(%d) }}" % r.randrange(1, 4)
         if k == "const":
             return "{{ %d }}" % r.randrange(0, 9)
+        if k == "genfilter":
+            self.hit("sync-generator-into-async-filter")
+            return "{{ %s }}" % r.choice(["sg()|first", "sg()|list|length", "sg()|map('string')|join", "sg()|select|list|length",
+                                          "sg()|sum", "it()|first", "sg()|join('-')", "sg()|batch(2)|first", "sg()|unique|list|length"])
         if k == "x":
             return "{{ x }}"
         if k == "loopvar":
@@ -373,15 +379,19 @@ class TGen:
             self.hit("loop." + a)
             return "{{ loop.%s }}" % a
         if k in ("for", "forif"):
-            it = r.choice(["xs", "xs", "ax()", "range(3)"])
+            it = r.choice(["xs", "xs", "ax()", "range(3)", "sg()", "sg()", "it()", "dv()", "xs|batch(2)", "xs|slice(2)",
+                           "sg()|batch(2)", "sg()|list", "ax()|list"])
+            lists = "batch" in it or "slice" in it
             cond = ""
             if k == "forif":
-                cond = " if " + r.choice(["x", "x > 0", "aw(x)", "true", "x != 1"])
+                cond = " if " + r.choice(["x", "aw(x)", "true"] if lists else ["x", "x > 0", "aw(x)", "true", "x != 1"])
                 self.hit("for-filter")
             else:
                 self.hit("for")
             if it == "ax()":
                 self.hit("for-over-async-data")
+            if it.startswith(("sg()", "it()", "dv()")) or lists:
+                self.hit("for-over-sync-generator-or-iterator")
             inner = self.body(d - 1, dict(cx, inloop=True))
             els = ""
             if r.random() < 0.3:
@@ -484,7 +494,19 @@ FIXED_SETS = [
     ({"main": "{% set v %}{% for x in xs %}{{ aw(x) }}{% endfor %}{% endset %}{{ v }}{% filter upper %}a{{ aw(1) }}{% endfilter %}"},
      ["main"]),
     ({"main": "{% for x in xs %}{% block item scoped %}{{ x }}{{ aw(x) }}{% endblock %}{% endfor %}"}, ["main"]),
+    # synchronous generators / iterators in every loop position and as inputs of the async filters
+    ({"main": "{% for x in sg() %}[{{ x }}]{{ aw(x) }}{% endfor %}"}, ["main"]),
+    ({"main": "{% for x in sg() %}{{ loop.index }}{{ aw(x) }}{{ loop.last }}{% endfor %}"}, ["main"]),
+    ({"main": "{% for x in sg() if x %}{{ aw(x) }}[{{ x }}]{% else %}E{% endfor %}"}, ["main"]),
+    ({"main": "{% for b in xs|batch(2) %}{{ aw(1) }}{{ b }}{% endfor %}{% for b in xs|slice(2) %}{{ b }}{{ aw(2) }}{% endfor %}"}, ["main"]),
+    ({"main": "{% for x in it() %}{{ aw(x) }}{% endfor %}{% for x in dv() if x %}{{ x }}{{ aw(x) }}{% endfor %}"}, ["main"]),
+    ({"main": "{{ sg()|first }}{{ aw(1) }}{{ sg()|list }}{{ sg()|map('string')|join }}{{ aw(2) }}{{ sg()|batch(2)|first }}"}, ["main"]),
+    ({"inc": "{% for x in sg() %}{{ aw(x) }}i{% endfor %}", "main": '{% for y in sg() %}{% include "inc" %}{% endfor %}'}, ["main"]),
 ]
+
+
+class Boom(Exception):
+    pass
 
 
 class TRT:
@@ -503,7 +525,25 @@ class TRT:
         if self.mode == "cancel" and self.awaits == self.k:
             asyncio.current_task().cancel()
         await asyncio.sleep(0)
+        if self.mode == "raise" and self.awaits == self.k:
+            raise Boom()         # the body raises: an ordinary exception propagating out of the render
         return x
+
+    @staticmethod
+    def sg():
+        """a synchronous generator object (what a context callable or a generator passed as data hands to a loop)"""
+        def sync_gen():
+            for v in (2, 0, 1):
+                yield v
+        return sync_gen()
+
+    @staticmethod
+    def it():
+        return iter([1, 0, 2])
+
+    @staticmethod
+    def dv():
+        return {"a": 2, "b": 0, "c": 1}.values()
 
     def ax(self):
         self.data_gens += 1
@@ -516,7 +556,7 @@ class TRT:
 
 def make_env(jinja2, templates, trt):
     env = jinja2.Environment(enable_async=True, loader=jinja2.DictLoader(dict(templates)))
-    env.globals.update(aw=trt.aw, ax=trt.ax, xs=[1, 0, 2],
+    env.globals.update(aw=trt.aw, ax=trt.ax, sg=trt.sg, it=trt.it, dv=trt.dv, xs=[1, 0, 2],
                        tree=[Node(1, [Node(2), Node(0, [Node(3)])]), Node(0), Node(4, [Node(5)])])
     return env
 
@@ -552,6 +592,8 @@ def run_template(env, name, trt, consumer, mode, k, strong=True):
             outcome = "done"
         except asyncio.CancelledError:
             outcome = "cancelled"
+        except Boom:
+            outcome = "raised"
         leaked, data_left = [], 0
         for i in loop.unclosed():
             c = site_class(loop.names[i], (DATA_FILE,))
@@ -600,6 +642,7 @@ def l_templates(ctx, res, cov, jinja2):
     data_left_total = 0
     gen_errors = []
     noattack_leaks = 0
+    noattack_case = {}
     maxk = {"chunks": 0, "awaits": 0}
     finalizer_natural = {}
     for templates, targets in sets:
@@ -640,8 +683,11 @@ def l_templates(ctx, res, cov, jinja2):
                 continue
             if base[3] or rtext[3]:
                 noattack_leaks += 1
+                noattack_case.setdefault("case", {"templates": templates, "template": name, "consumer": "generate" if base[3] else "render",
+                                                  "mode": None, "k": 0, "unclosed": base[3] or rtext[3]})
             attacks = [("generate", "stop", k) for k in range(1, trt_chunks + 1)]
             attacks += [(c, "cancel", k) for c in ("generate", "render") for k in range(1, awaits + 1)]
+            attacks += [(c, "raise", k) for c in ("generate", "render") for k in range(1, awaits + 1)]
             cap = ctx.pick(90, 400)
             if len(attacks) > cap:      # very long renders: every k <= 12 and a seeded sample of the later ones
                 head = [a for a in attacks if a[2] <= 12]
@@ -659,6 +705,8 @@ def l_templates(ctx, res, cov, jinja2):
                 data_left_total += out[5]
                 if mode == "cancel" and out[0] != "cancelled":
                     raise core.HarnessError(f"cancel at await {k} of {name} did not cancel the task")
+                if mode == "raise" and out[0] != "raised":
+                    raise core.HarnessError(f"the exception raised at await {k} of {name} did not come out of the render")
                 for c in set(out[3]):
                     case = {"templates": templates, "template": name, "consumer": consumer, "mode": mode, "k": k,
                             "unclosed": out[3]}
@@ -688,7 +736,8 @@ def l_templates(ctx, res, cov, jinja2):
             case = leaks[cls[0]]
             explained.add(cls[0])
             how = (f"the consumer takes {case['k']} chunk(s) from generate_async() and calls aclose()" if case["mode"] == "stop"
-                   else f"the task is cancelled at await #{case['k']} ({case['consumer']})")
+                   else f"the task is cancelled at await #{case['k']} ({case['consumer']})" if case["mode"] == "cancel"
+                   else f"the data function raises at await #{case['k']} ({case['consumer']})")
             res.violate(f"C36:bare:{lab}", f"the {lab} generator is iterated bare in generated code and a {cls[0]} generator is "
                         f"left unclosed when {how}: template {case['templates'][case['template']]!r}; only the GC finaliser "
                         f"closes it (finalizer hook calls without harness references: {finalizer_natural.get(cls[0])})", case)
@@ -716,7 +765,9 @@ def l_templates(ctx, res, cov, jinja2):
         "generated_templates_skipped_because_they_do_not_render": len(gen_errors),
     }
     if noattack_leaks:
-        res.violate("C36:leak-without-attack", "a render that ran to the end left a generator unclosed", {}, no_input=True)
+        c = noattack_case["case"]
+        res.violate("C36:leak-without-attack", f"a render that ran to the end left generators {c['unclosed']} unclosed: "
+                    f"{c['templates'][c['template']]!r} ({c['consumer']})", c)
     return runs + functions, len(distinct)
 
 
